@@ -231,20 +231,25 @@ func runSeqScenario(in c16In) *seqResult {
 
 // runs this binary in child mode `mode` with `input` (JSON) on stdin; returns its stdout, or a note
 func runChild(mode string, input any) ([]byte, string) {
+	return runChildBin(os.Args[0], mode, input, nil)
+}
+
+func runChildBin(bin, mode string, input any, env []string) ([]byte, string) {
 	ib, _ := json.Marshal(input)
 	ctx, cancel := context.WithTimeout(context.Background(), 90*time.Second)
 	defer cancel()
-	cmd := exec.CommandContext(ctx, os.Args[0], mode)
+	cmd := exec.CommandContext(ctx, bin, mode)
+	cmd.Env = append(os.Environ(), env...)
 	cmd.Stdin = bytes.NewReader(ib)
 	var stdout, stderr bytes.Buffer
 	cmd.Stdout, cmd.Stderr = &stdout, &stderr
 	if err := cmd.Run(); err != nil {
 		tail := stderr.String()
-		if i := strings.Index(tail, "goroutine "); i > 0 {
+		if i := strings.Index(tail, "goroutine "); i > 0 && !strings.Contains(tail, "DATA RACE") {
 			tail = tail[:i]
 		}
-		if len(tail) > 400 {
-			tail = tail[:400]
+		if len(tail) > 600 {
+			tail = tail[:600]
 		}
 		return nil, fmt.Sprintf("the evaluation process ended abnormally (%v): %s", err, strings.TrimSpace(tail))
 	}
